@@ -97,6 +97,31 @@ def _reachable(node, fn) -> bool:
     return True
 
 
+def _decorated_with(node, name: str) -> bool:
+    return any((isinstance(d, ast.Call) and isinstance(d.func, ast.Name) and d.func.id == name) or (isinstance(d, ast.Name) and d.id == name) for d in getattr(node, "decorator_list", []))
+
+
+def registered_by(m, factory: str) -> list:
+    """The functions defined inside the module-level factory `factory` that it registers with `@implements(...)`: the
+    NumPy implementation the factory installs, whatever it is called."""
+    return [f for f in m.all_functions if f.parent is not None and f.parent.name == factory and f.parent.parent is None and isinstance(f.node, ast.FunctionDef) and _decorated_with(f.node, "implements")]
+
+
+def role_qualname(f) -> str:
+    """Qualified name of a function in which a *nested* function is named by its role instead of its (local) name:
+    `<outer>.<locals>.<registered>` for the function the outer one registers with @implements(...),
+    `<outer>.<locals>.<returned>` for the one it returns, `<outer>.<locals>.<nested>` otherwise."""
+    if f.parent is None or not isinstance(f.node, (ast.FunctionDef, ast.AsyncFunctionDef)):
+        return f.qualname.split("::")[1]
+    if _decorated_with(f.node, "implements"):
+        role = "<registered>"
+    elif any(isinstance(r, ast.Return) and isinstance(r.value, ast.Name) and r.value.id == f.name for r in walk_local(f.parent.node)):
+        role = "<returned>"
+    else:
+        role = "<nested>"
+    return f"{role_qualname(f.parent)}.<locals>.{role}"
+
+
 def wrapped_operation_param(f):
     """For a wrapper function nested in the decorator `ireduce_dimensions(<op>)`: the name of the decorator's parameter,
     i.e. the wrapped operation.  None for any other function."""
@@ -280,9 +305,9 @@ def run(ck, ix, tier):
     for t in walk_local(gop.node):
         if isinstance(t, ast.Compare) and norm(t.left) == "unit_op" and isinstance(t.ops[0], ast.Eq) and isinstance(t.comparators[0], ast.Constant):
             understood.add(t.comparators[0].value)
-    impl = [f for f in m.all_functions if f.name == "implementation" and f.parent is not None and f.parent.name == "implement_func"]
+    impl = registered_by(m, "implement_func")        # by role: the function implement_func registers with @implements(...)
     if not impl:
-        raise AnalysisError("implement_func.implementation not found")
+        raise AnalysisError("the implementation registered by implement_func not found")
     dispatched = set()
     for t in walk_local(impl[0].node):
         if isinstance(t, ast.Compare) and norm(t.left) == "output_unit" and isinstance(t.ops[0], ast.In) and isinstance(t.comparators[0], (ast.Tuple, ast.List)):
@@ -376,7 +401,7 @@ def run(ck, ix, tier):
                         ck.check(lhs == rhs, "G-PROV", f"{f.name}|order-preserving-destructuring|{','.join(rhs)}", f.loc(a), f"({', '.join(lhs)}) = helper({', '.join(rhs)})",
                                  f"`{norm(a)[:100]}`: the helper returns its arguments in order, but they are unpacked as ({', '.join(lhs)}) from ({', '.join(rhs)}) — roles swapped")
         for c in walk_local(f.node):
-            if isinstance(c, ast.Call) and dotted(c.func) and dotted(c.func).startswith("np.") and f.name.startswith("_"):
+            if isinstance(c, ast.Call) and dotted(c.func) and dotted(c.func).startswith("np.") and ((f.parent is None and f.name.startswith("_")) or _decorated_with(f.node, "implements")):
                 for kwd in c.keywords:
                     if kwd.arg and isinstance(kwd.value, ast.Name) and kwd.value.id in [x.arg for x in f.node.args.args + f.node.args.kwonlyargs]:
                         n_roles += 1
@@ -543,14 +568,14 @@ RAW_MAGNITUDE_OK = {
     ("_pad", "array"): "pad values are converted to array's units; array itself is the reference",
     ("_any", "a"): "truth value: offset units rejected, zero is zero in every multiplicative unit",
     ("_all", "a"): "truth value: offset units rejected, zero is zero in every multiplicative unit",
-    ("implement_prod_func.<locals>._prod", "a"): "units raised to the number of factors separately",
+    ("implement_prod_func.<locals>.<registered>", "a"): "units raised to the number of factors separately",
     ("_trapz", "y"): "units of y and x/dx multiplied into the result separately",
     ("_trapz", "x"): "units of y and x/dx multiplied into the result separately",
     ("_trapz", "dx"): "units of y and x/dx multiplied into the result separately",
     ("_correlate", "a"): "units multiplied into the result separately",
     ("_correlate", "v"): "units multiplied into the result separately",
-    ("implement_mul_func.<locals>.implementation", "a"): "units multiplied into the result separately (after _base_unit_if_needed)",
-    ("implement_mul_func.<locals>.implementation", "b"): "units multiplied into the result separately (after _base_unit_if_needed)",
+    ("implement_mul_func.<locals>.<registered>", "a"): "units multiplied into the result separately (after _base_unit_if_needed)",
+    ("implement_mul_func.<locals>.<registered>", "b"): "units multiplied into the result separately (after _base_unit_if_needed)",
 }
 
 
@@ -568,6 +593,7 @@ def raw_magnitude_rule(ck, ix):
         a = f.node.args
         ps = {x.arg for x in a.args + a.kwonlyargs + a.posonlyargs}
         q = f.qualname.split("::")[1]
+        role = role_qualname(f)          # nested implementations are looked up by role (factory + what it does with them)
         for n in walk_local(f.node):
             p_ = None
             if isinstance(n, ast.Call) and isinstance(n.func, ast.Name) and n.func.id == "getattr" and len(n.args) >= 2 and isinstance(n.args[1], ast.Constant) \
@@ -578,6 +604,6 @@ def raw_magnitude_rule(ck, ix):
             if p_ is None or (q, p_) in seen:
                 continue
             seen.add((q, p_))
-            ck.check((q, p_) in RAW_MAGNITUDE_OK, "G-OWN", f"raw-magnitude|{q}|{p_}", f.loc(n), RAW_MAGNITUDE_OK.get((q, p_), ""),
+            ck.check((role, p_) in RAW_MAGNITUDE_OK, "G-OWN", f"raw-magnitude|{q}|{p_}", f.loc(n), RAW_MAGNITUDE_OK.get((role, p_), ""),
                      f"`{norm(n)}` in {q} reads the magnitude of parameter `{p_}` without converting it to the units NumPy will assume for it (not one of the confirmed unit-free roles): a quantity in other units - or of another dimension - is accepted as a bare number")
     ck.floor("G-OWN", len(seen), 10, "raw magnitude reads of parameters in numpy_func implementations")
